@@ -37,6 +37,7 @@ type Case struct {
 	Blind      string `json:"blind"`
 	ClientKey  string `json:"client_key"`
 	PreVerify  bool   `json:"client_already_registered"` // an honest request of the same client was verified before
+	Cached     bool   `json:"request_object_marshalled_before_fields_were_set"` // the request object was decoded from the honest bytes and Marshal() was called on it before the fields of this case were stored into it
 	HonestReq  string `json:"honest_request_hex,omitempty"`
 	HonestBl   string `json:"honest_blind,omitempty"`
 }
@@ -131,6 +132,17 @@ func run(c Case) (string, *mc.Viol) {
 	before := dumpCache(cache)
 	puts := cache.Puts
 	req := type3.RateLimitedTokenRequest{RequestKey: unhex(c.RequestKey), NameKeyID: unhex(c.NameKeyID), EncryptedTokenRequest: unhex(c.Encrypted), Signature: unhex(c.Signature)}
+	if c.Cached {
+		// the attester's caller decoded the honest request, looked at its encoding (which the
+		// object caches) and then holds an object whose fields are those of this case
+		var o type3.RateLimitedTokenRequest
+		if !o.Unmarshal(unhex(c.HonestReq)) {
+			return "harness", nil
+		}
+		_ = o.Marshal()
+		o.RequestKey, o.NameKeyID, o.EncryptedTokenRequest, o.Signature = req.RequestKey, req.NameKeyID, req.EncryptedTokenRequest, req.Signature
+		req = o
+	}
 	var err error
 	if p := mc.Catch(func() { err = att.VerifyRequest(req, unhex(c.Blind), unhex(c.ClientKey), make([]byte, 32)) }); p != "" {
 		return "panic", &mc.Viol{Sig: "VerifyRequest panics: " + c.Class, What: p}
@@ -272,6 +284,12 @@ func main() {
 					c2.Class += ":registered"
 					c2.PreVerify, c2.HonestReq, c2.HonestBl = true, hex.EncodeToString(h.reqBytes), hex.EncodeToString(h.blind)
 					add(c2)
+				}
+				if i%8 == 3 && f.name != "blind" && f.name != "client-key" {
+					c3 := c
+					c3.Class += ":encoding-cached"
+					c3.Cached, c3.HonestReq = true, hex.EncodeToString(h.reqBytes)
+					add(c3)
 				}
 				add(c)
 			}
